@@ -86,9 +86,9 @@ class Ref:
             return self.adjust(i, 'p')
         return f
 
-    def walk(self, i, nmax):
-        """{n: the n-th business day counted from adjust(i)} for -nmax <= n <= nmax, by stepping one day at a time"""
-        x0 = self.adjust(i)
+    def walk(self, i, nmax, a=None):
+        """{n: the n-th business day counted from adjust(i, a)} for -nmax <= n <= nmax, by stepping one day at a time"""
+        x0 = self.adjust(i, a)
         res = {0: x0}
         for step in (1, -1):
             x, k = x0, 0
@@ -223,6 +223,25 @@ def check_config(case):
                 ok, got = impl(cal.dt_bump, t, '%db' % n)
                 if not ok or got != e:
                     bad('dt_bump-wrong', "%s dt_bump(t, '%db') expected %s observed %s" % (tl, n, fmt(e), fmt(got)), op='dt_bump', path=path, sign=sgn)
+        # ---- an adjustment passed explicitly to add / bdays / dt_bump overrides the calendar's own (loop path and indexed path alike)
+        for a in ADJS:
+            if a == adj:
+                continue
+            tb = ref.walk(i, 3, a)
+            for n in (-3, -2, -1, 0, 1, 2, 3):
+                e = DTS[tb[n]]
+                path = 'loop' if abs(n) <= 1 else 'table'
+                ok, r = impl(cal.add, t, n, adj=a)
+                if not ok or r != e:
+                    bad('add-adj-wrong', '%s add(t, %d, adj=%r) on a calendar with adj=%r expected %s (the %d-th business day from adjust(t, %r)=%s) observed %s' % (
+                        tl, n, a, adj, fmt(e), n, a, fmt(DTS[tb[0]]), fmt(r)), op='add-adj', path=path, a=a, bday=eb)
+                    continue
+                ok, got = impl(cal.bdays, t, r, a)
+                if not ok or got != n:
+                    bad('bdays-adj-wrong', '%s bdays(t, add(t, %d, adj=%r)=%s, adj=%r) expected %d observed %r' % (tl, n, a, fmt(r), a, n, got), op='bdays-adj', a=a, bday=eb)
+                ok, got = impl(cal.dt_bump, t, '%db' % n, a)
+                if not ok or got != e:
+                    bad('dt_bump-adj-wrong', "%s dt_bump(t, '%db', adj=%r) expected %s observed %s" % (tl, n, a, fmt(e), fmt(got)), op='dt_bump-adj', path=path, a=a, bday=eb)
         # ---- single-step path against the indexed path
         for s in (1, -1):
             e = DTS[table[2 * s]]
